@@ -64,3 +64,32 @@ def wreck_dict(d):
     for k in list(d):
         if isinstance(d[k], str):
             d[k] = d[k] + "~wrecked"
+
+
+# ---------------------------------------------------------------------------
+# non-perturbing observation: the writer's own (possibly uncommitted) view through a marked SELECT on the store's
+# connection. Reading events through the API commits on the lazily-committing store, which would hide every defect
+# that loses *pending* writes (a stray rollback, a skipped flush).
+
+def raw_view(store):
+    """None for the memory backend; else (rows, ids): rows = frozenset of ('B', id, name, type, client, hostname,
+    created, datastr) and ('E', bucket id, uid, start, end); ids = {(bucket id, uid): event id}."""
+    if store.backend == "memory":
+        return None
+    from ._crash import decode
+    conn = store.storage.conn if store.backend == "sqlite" else store.storage.db.connection()
+    return decode(conn, store.backend)
+
+
+def raw_others(rows, skip):
+    return frozenset(r for r in rows if r[1] != skip)
+
+
+def raw_uids(rows):
+    out = {}
+    for r in rows:
+        if r[0] == "B":
+            out.setdefault(r[1], set())
+        else:
+            out.setdefault(r[1], set()).add(r[2])
+    return out
